@@ -108,6 +108,8 @@ def _ensemble_case(rng, tier):
         case["dist"] = True                # SetDistribution: perturbed start points (may leave the box; members clip them back)
     if rng.random() < 0.04 and case["lo"] and not case.get("dist"):
         case["nested_instance"] = True     # a configured solver INSTANCE as nested solver (ensemble settings are not applied)
+    if rng.random() < 0.25 and case["lo"] and not case.get("dist") and not case.get("nested_instance"):
+        case["rmode"] = rng.choice([[True, None], [None, True], [True, True]])
     if rng.random() < 0.5:
         case["loop"] = True        # step-wise runs ask Terminated() before every Step (also before the first one)
     if rng.random() < 0.15 and not case.get("nested_instance"):
